@@ -2,9 +2,10 @@ use chrono::Duration;
 use nom::branch::alt;
 use nom::bytes::complete::tag;
 use nom::character::complete::char;
+use nom::character::complete::digit1;
 use nom::combinator::{map, opt};
 use nom::multi::many1;
-use nom::number::complete::double;
+use nom::sequence::preceded;
 use nom::IResult;
 
 // Constants representing time units in nanoseconds
@@ -36,9 +37,19 @@ pub fn parse_duration(i: &str) -> IResult<&str, Duration> {
     if i == "0" {
         return Ok((i, Duration::zero()));
     }
-    let (i, duration) = many1(parse_number_unit)(i)
-        .map(|(i, d)| (i, d.iter().fold(Duration::zero(), |acc, next| acc + *next)))?;
-    Ok((i, duration * if neg.is_some() { -1 } else { 1 }))
+    let (rest, terms) = many1(parse_number_unit)(i)?;
+    // Sum the exact nanosecond counts; a total outside the 64-bit nanosecond range is an error.
+    let total = terms
+        .iter()
+        .try_fold(0i128, |acc, next| acc.checked_add(*next))
+        .map(|total| if neg.is_some() { -total } else { total })
+        .and_then(|total| i64::try_from(total).ok())
+        .ok_or_else(|| out_of_range(i))?;
+    Ok((rest, Duration::nanoseconds(total)))
+}
+
+fn out_of_range(i: &str) -> nom::Err<nom::error::Error<&str>> {
+    nom::Err::Failure(nom::error::Error::new(i, nom::error::ErrorKind::TooLarge))
 }
 
 enum Unit {
@@ -63,11 +74,26 @@ impl Unit {
     }
 }
 
-fn parse_number_unit(i: &str) -> IResult<&str, Duration> {
-    let (i, num) = double(i)?;
-    let (i, unit) = parse_unit(i)?;
-    let duration = to_duration(num, unit);
-    Ok((i, duration))
+/// Parses one `<decimal number><unit>` term into its exact number of nanoseconds, truncating
+/// anything below a nanosecond. Only plain decimal numbers are numbers here: no exponents, no
+/// `inf`/`nan`.
+fn parse_number_unit(i: &str) -> IResult<&str, i128> {
+    let (rest, whole) = digit1(i)?;
+    let (rest, fraction) = opt(preceded(char('.'), digit1))(rest)?;
+    let (rest, unit) = parse_unit(rest)?;
+    let nanos = unit.nanos() as i128;
+    let mut total = whole
+        .parse::<i128>()
+        .ok()
+        .and_then(|whole| whole.checked_mul(nanos))
+        .ok_or_else(|| out_of_range(i))?;
+    if let Some(fraction) = fraction {
+        // digits beyond the 18th cannot contribute a whole nanosecond even to an hour
+        let digits = &fraction[..fraction.len().min(18)];
+        let numerator = digits.parse::<i128>().map_err(|_| out_of_range(i))?;
+        total += numerator * nanos / 10i128.pow(digits.len() as u32);
+    }
+    Ok((rest, total))
 }
 
 fn parse_negative(i: &str) -> IResult<&str, ()> {
@@ -79,6 +105,9 @@ fn parse_unit(i: &str) -> IResult<&str, Unit> {
     alt((
         map(tag("ms"), |_| Unit::Millisecond),
         map(tag("us"), |_| Unit::Microsecond),
+        // `format_duration` prints U+00B5 (as Go does); U+03BC is the other spelling Go accepts
+        map(tag("\u{b5}s"), |_| Unit::Microsecond),
+        map(tag("\u{3bc}s"), |_| Unit::Microsecond),
         map(tag("ns"), |_| Unit::Nanosecond),
         map(char('h'), |_| Unit::Hour),
         map(char('m'), |_| Unit::Minute),
@@ -86,17 +115,6 @@ fn parse_unit(i: &str) -> IResult<&str, Unit> {
     ))(i)
 }
 
-fn to_duration(num: f64, unit: Unit) -> Duration {
-    Duration::nanoseconds((num * unit.nanos() as f64).trunc() as i64)
-}
-
-/// Formats a [`Duration`] into a string. String returns a string representing the
-/// duration in the form "72h3m0.5s". Leading zero units are omitted. As a special
-/// case, durations less than one second format use a smaller unit (milli-, micro-,
-/// or nanoseconds) to ensure that the leading digit is non-zero. The zero duration
-/// formats as 0s.
-///
-/// This is a direct port of the Go version of the time.Duration(0).String() function.
 pub fn format_duration(d: &Duration) -> String {
     let buf = &mut [0u8; 32];
     let mut w = buf.len();
@@ -108,14 +126,14 @@ pub fn format_duration(d: &Duration) -> String {
             if n < 0 {
                 neg = true;
             }
-            n as u64
+            n.unsigned_abs()
         })
         .unwrap_or_else(|| {
             let s = d.num_seconds();
             if s < 0 {
                 neg = true;
             }
-            s as u64 * SECOND
+            s.unsigned_abs().saturating_mul(SECOND)
         });
 
     if u < SECOND {
